@@ -267,6 +267,13 @@ class _Norm:
                         i = j + 1
                         continue
                 if j < len(stmts) and isinstance(stmts[j], ast.For):
+                    fis = self.fission(stmts, i, j)
+                    if fis is not None:
+                        out.extend(fis)
+                        self.changed = True
+                        i = j + 1
+                        continue
+                if j < len(stmts) and isinstance(stmts[j], ast.For):
                     part = self.partition(stmts, i, j, x, kind)
                     if part is not None:
                         out.extend(part)
@@ -292,6 +299,58 @@ class _Norm:
             out.append(s)
             i += 1
         return out
+
+    def fission(self, stmts, i: int, j: int):
+        """X = []; Y = []; for T in IT: X.append(A); (if C: Y.append(B))   -- every statement
+        of the body feeds at most one of the accumulators, the others are shared locals --
+        ==>  X = [A for T in IT]; Y = [B for T in IT if C]  (loop fission)"""
+        loop = stmts[j]
+        accs = [(k, _empty_init(stmts[k])) for k in range(i, j)]
+        accs = [(k, o) for k, o in accs if o is not None]
+        if len(accs) < 2 or loop.orelse:
+            return None
+        names = [o[0] for _, o in accs]
+        if len(set(names)) != len(names):
+            return None
+        idx = {k for k, _ in accs}
+        for m in range(i, j):
+            if m not in idx and set(names) & _names(stmts[m]):
+                return None
+        if set(names) & _names(loop.iter):
+            return None
+        groups = {n: [] for n in names}
+        shared = []
+        for pos, st in enumerate(loop.body):
+            hit = [n for n in names if n in _names(st)]
+            if len(hit) > 1:
+                return None
+            if hit:
+                groups[hit[0]].append(pos)
+            else:
+                shared.append(pos)
+        if any(not g for g in groups.values()):
+            return None
+        new = []
+        save = self._extra_inside
+        self._extra_inside = loop
+        try:
+            for k, (name, kind) in accs:
+                body = [copy.deepcopy(loop.body[p]) for p in sorted(shared + groups[name])]
+                lp = ast.copy_location(ast.For(copy.deepcopy(loop.target),
+                                               copy.deepcopy(loop.iter), body, []), loop)
+                ast.fix_missing_locations(lp)
+                comp = self.loop(lp, name, kind)
+                if comp is None:
+                    return None
+                init = stmts[k]
+                a = ast.Assign([ast.Name(name, ast.Store())], comp)
+                if isinstance(init, ast.AnnAssign):
+                    a = ast.AnnAssign(ast.Name(name, ast.Store()), init.annotation, comp, 1)
+                new.append(ast.fix_missing_locations(ast.copy_location(a, loop)))
+        finally:
+            self._extra_inside = save
+        rest = [stmts[m] for m in range(i + 1, j) if m not in idx]
+        return rest + new
 
     def partition(self, stmts, i: int, j: int, x: str, kind: str):
         """X = []; Y = []; for T in IT: (if C: X.append(A) else: Y.append(B))
